@@ -5,10 +5,11 @@ all penalty policies, L2 controllers x Newton methods with a symbolic fault sche
 solvers, reformulation pipeline, scalings, observers) no exception other than the deliberate ones
 leaves pygradflow code -- in exact real arithmetic.  Declared outside: finiteness of returned
 x, y, d and absence of overflow in whole floating-point runs; `y.dot(yprod) > 0` in the condition
-estimator (accuracy of the compiled LU)."""
-from . import ctrl, loop, scal, steps, twin, xform
+estimator under inexact solves (accuracy of the compiled LU; with exact solves and one power
+iteration the real estimator is run against the real wrappers)."""
+from . import ctrl, linsol, loop, scal, steps, twin, xform
 
-OWNED = ["C06.", "C07.linear_solver_failure_becomes_step_solver_error", "C07.only_declared_failures_reach_compute_step"]
+OWNED = ["C06.", "C17.matrix_not_modified", "C07.linear_solver_failure_becomes_step_solver_error", "C07.only_declared_failures_reach_compute_step"]
 REQUIRED = ["C06.solve_ends_with_a_status_or_a_deliberate_error", "C06.compute_step_always_returns_a_result"]
 META = dict(
     functions_encoded=loop.FUNCTIONS + ctrl.FUNCTIONS + steps.FUNCTIONS,
@@ -32,4 +33,14 @@ def tasks(tier):
     t.append(dict(module="xform", fn="h_transform", shape=dict(vars=["boxed", "fixed"], cons=["ranged"], W=1, fmt="csr"), opts=dict(exp_window=(-4, 4))))
     t.append(dict(module="scal", fn="h_kkt", shape=dict(W0=3, n=1, m=1, unwind=3), opts=dict(frexp_window=(-8, 8), exp_window=(-24, 24), sqrt_model="lazy")))
     t.append(dict(module="twin", fn="h_observe", shape=dict(K=2, policy="DualNorm", vars=["boxed"], cons=[], level="DEBUG"), opts=dict(mulmode="uf")))
+    # the real condition estimator driving each real linear-solver wrapper (report_rcond=True): every
+    # call it makes must be one the wrapper accepts; and each wrapper under every call shape of the interface
+    for kind in ("LU", "GMRES", "MINRES"):
+        t.append(dict(module="linsol", fn="h_estimator", shape=dict(n=1, kind=kind), opts=dict(mulmode="uf", timeout_ms=10000, rng_nonzero=True)))
+        if not q:
+            t.append(dict(module="linsol", fn="h_estimator", shape=dict(n=1, kind=kind, its=2, fmt="csr"), opts=dict(mulmode="uf", timeout_ms=10000, rng_nonzero=True)))
+    for kind in ("GMRES", "MINRES"):
+        for trans in (False, True):
+            t.append(dict(module="linsol", fn="h_krylov", shape=dict(n=2, kind=kind, trans=trans, guess=trans, fmt="csr"), opts={}))
+    t.append(dict(module="linsol", fn="h_lu", shape=dict(n=2, fmt="csr"), opts={}))
     return t
